@@ -172,6 +172,8 @@ class LDAPExtendedRequestStartTLS(LDAPMessageParsableBase):
     @classmethod
     def _parse(cls, parsable):
         asn1_message = cls._parse_asn1(parsable)
+        if asn1_message['protocolOp'].name != 'extendedReq':
+            raise InvalidValue(parsable, cls, 'protocolOp')
 
         return LDAPExtendedRequestStartTLS(), len(asn1_message.dump())
 
@@ -193,6 +195,8 @@ class LDAPExtendedResponseStartTLS(LDAPMessageParsableBase):
     @classmethod
     def _parse(cls, parsable):
         asn1_message = cls._parse_asn1(parsable)
+        if asn1_message['protocolOp'].name != 'extendedResp':
+            raise InvalidValue(parsable, cls, 'protocolOp')
 
         return LDAPExtendedResponseStartTLS(
             asn1_message['protocolOp'].chosen['resultCode'].native
